@@ -41,6 +41,7 @@ type PlugScript struct {
 	ExitAfter   *int       `json:"exit_after,omitempty"`    // exit (with Exit) after that many bytes of stdout
 	OutPrefix   string     `json:"out_prefix,omitempty"`    // names of files are prefixed with the request's OutputPath if set to "$OUT"
 	IgnoreInt   bool       `json:"ignore_sigint,omitempty"` // the plugin ignores SIGINT / SIGTERM (only SIGKILL ends it)
+	FaultLang   string     `json:"fault_lang,omitempty"`    // misbehave only when the request is for this language; otherwise answer healthily
 }
 
 func sha(b []byte) string {
@@ -302,6 +303,7 @@ func pluginProgram(p *simrt.Proc, raw json.RawMessage) int {
 	p.Note("stdin.sha256", sha(in))
 	p.Note("stdin.len", len(in))
 	outPath := ""
+	reqLang := ""
 	if sc.Decode && n < 0 {
 		func() {
 			defer func() {
@@ -315,6 +317,7 @@ func pluginProgram(p *simrt.Proc, raw json.RawMessage) int {
 				return
 			}
 			outPath = req.OutputPath
+			reqLang = req.Language
 			p.Note("req.dump", simrt.DumpTree(req))
 			p.Note("req.version", req.Version)
 			p.Note("req.language", req.Language)
@@ -323,6 +326,12 @@ func pluginProgram(p *simrt.Proc, raw json.RawMessage) int {
 			p.Note("req.generator_parameters", req.GeneratorParameters)
 			p.Note("req.plugin_parameters", req.PluginParameters)
 		}()
+	}
+	if sc.FaultLang != "" && sc.Decode && reqLang != "" && reqLang != sc.FaultLang {
+		// healthy for this language
+		sc.Error, sc.Mangle, sc.Exit, sc.ExitAfter, sc.Hang, sc.NoResponse = nil, "", 0, nil, "", false
+		sc.DelayMid, sc.DelayAfter = 0, 0
+		p.Note("fault.skipped_for_language", reqLang)
 	}
 	if sc.DelayMid > 0 {
 		p.Sleep(time.Duration(sc.DelayMid))
